@@ -26,7 +26,7 @@ package server
 
 //@ func Handler.HandleOpenDir params(ctx, path) results(ok)
 //@   tags C03,C05
-//@   requires recv != nil && wfCtx(ctx) && handlerInv(recv, ctx)
+//@   requires recv != nil && wfCtx(ctx) && handlerInv(recv, ctx) && confined(path)
 //@   modifies ctx.State, fopen, fpos, limbase, iofaults
 //@   ensures iofaults >= old(iofaults) && handlerInv(recv, ctx) && wireUntouched(ctx.rd.Reader) && fsw == old(fsw)
 //@ func Handler.HandleReadDir params(ctx) results(entries)
@@ -42,13 +42,13 @@ package server
 //@   ensures iofaults >= old(iofaults) && handlerInv(recv, ctx) && wireUntouched(ctx.rd.Reader) && fsw == old(fsw)
 //@ func Handler.HandleStatFile params(ctx, path) results(fi, err)
 //@   tags C03,C05
-//@   requires recv != nil && wfCtx(ctx) && handlerInv(recv, ctx)
+//@   requires recv != nil && wfCtx(ctx) && handlerInv(recv, ctx) && confined(path)
 //@   modifies ctx.State, fopen, fpos, limbase, iofaults
 //@   ensures iofaults >= old(iofaults) && handlerInv(recv, ctx) && wireUntouched(ctx.rd.Reader) && fsw == old(fsw)
 //@   ensures err == nil ==> fi != nil
 //@ func Handler.HandleOpenFile params(ctx, path) results(fi, err)
 //@   tags C03,C05
-//@   requires recv != nil && wfCtx(ctx) && handlerInv(recv, ctx)
+//@   requires recv != nil && wfCtx(ctx) && handlerInv(recv, ctx) && confined(path)
 //@   modifies ctx.State, fopen, fpos, limbase, iofaults
 //@   ensures iofaults >= old(iofaults) && handlerInv(recv, ctx) && wireUntouched(ctx.rd.Reader) && fsw == old(fsw)
 //@   ensures err == nil ==> fi != nil
@@ -82,7 +82,7 @@ package server
 //@   ensures wn[c] <= old(wn[c]) + 2048 * sectorsToRead && (err == nil ==> wn[c] == old(wn[c]) + 2048 * sectorsToRead)
 //@ func Handler.HandleCreateFile params(ctx, path) results(err)
 //@   tags C03,C05
-//@   requires recv != nil && wfCtx(ctx) && handlerInv(recv, ctx)
+//@   requires recv != nil && wfCtx(ctx) && handlerInv(recv, ctx) && confined(path)
 //@   modifies ctx.State, fopen, fpos, limbase, iofaults, fsw
 //@   ensures iofaults >= old(iofaults) && handlerInv(recv, ctx) && wireUntouched(ctx.rd.Reader)
 //@   ensures !writeAllowed(recv) ==> fsw == old(fsw) && err != nil
@@ -97,25 +97,25 @@ package server
 //@   ensures err == nil ==> fpos[data] == fsize[data] @whole-payload
 //@ func Handler.HandleDeleteFile params(ctx, path) results(err)
 //@   tags C03,C05
-//@   requires recv != nil && wfCtx(ctx) && handlerInv(recv, ctx)
+//@   requires recv != nil && wfCtx(ctx) && handlerInv(recv, ctx) && confined(path)
 //@   modifies ctx.State, fopen, fpos, limbase, iofaults, fsw
 //@   ensures iofaults >= old(iofaults) && handlerInv(recv, ctx) && wireUntouched(ctx.rd.Reader)
 //@   ensures !writeAllowed(recv) ==> fsw == old(fsw) && err != nil
 //@ func Handler.HandleMkdir params(ctx, path) results(err)
 //@   tags C03,C05
-//@   requires recv != nil && wfCtx(ctx) && handlerInv(recv, ctx)
+//@   requires recv != nil && wfCtx(ctx) && handlerInv(recv, ctx) && confined(path)
 //@   modifies ctx.State, fopen, fpos, limbase, iofaults, fsw
 //@   ensures iofaults >= old(iofaults) && handlerInv(recv, ctx) && wireUntouched(ctx.rd.Reader)
 //@   ensures !writeAllowed(recv) ==> fsw == old(fsw) && err != nil
 //@ func Handler.HandleRmdir params(ctx, path) results(err)
 //@   tags C03,C05
-//@   requires recv != nil && wfCtx(ctx) && handlerInv(recv, ctx)
+//@   requires recv != nil && wfCtx(ctx) && handlerInv(recv, ctx) && confined(path)
 //@   modifies ctx.State, fopen, fpos, limbase, iofaults, fsw
 //@   ensures iofaults >= old(iofaults) && handlerInv(recv, ctx) && wireUntouched(ctx.rd.Reader)
 //@   ensures !writeAllowed(recv) ==> fsw == old(fsw) && err != nil
 //@ func Handler.HandleGetDirSize params(ctx, path) results(n, err)
 //@   tags C03,C05
-//@   requires recv != nil && wfCtx(ctx) && handlerInv(recv, ctx)
+//@   requires recv != nil && wfCtx(ctx) && handlerInv(recv, ctx) && confined(path)
 //@   modifies ctx.State, fopen, fpos, limbase, iofaults, walkroot
 //@   ensures iofaults >= old(iofaults) && handlerInv(recv, ctx) && wireUntouched(ctx.rd.Reader) && fsw == old(fsw)
 
@@ -172,7 +172,7 @@ package server
 // ---- request handlers -----------------------------------------------------------------------------------
 
 //@ func Server.handleOpenDir results(err)
-//@   tags C03,C05,C04
+//@   tags C03,C05,C04,C01
 //@   requires s != nil && s.Handler != nil && wfCtx(ctx) && handlerInv(s.Handler, ctx)
 //@   modifies ctx.State, fopen, fpos, limbase, iofaults, wn[ctx.rd.Reader], wdata[ctx.rd.Reader]
 //@   let c = ctx.rd.Reader
@@ -221,7 +221,7 @@ package server
 //@   ensures[C03] err == nil ==> wn[c] == old(wn[c]) + 8 + 529 * sbe64(wdata[c], old(wn[c])) @one-response
 
 //@ func Server.handleStatFile results(err)
-//@   tags C03,C05,C04
+//@   tags C03,C05,C04,C01
 //@   requires s != nil && s.Handler != nil && wfCtx(ctx) && handlerInv(s.Handler, ctx)
 //@   modifies ctx.State, fopen, fpos, limbase, iofaults, wn[ctx.rd.Reader], wdata[ctx.rd.Reader]
 //@   let c = ctx.rd.Reader
@@ -234,7 +234,7 @@ package server
 //@   ensures[C03] fpos[c] >= old(fpos[c]) && fpos[c] <= old(fpos[c]) + L && wn[c] <= old(wn[c]) + 33 @no-stray-bytes
 
 //@ func Server.handleOpenFile results(err)
-//@   tags C03,C05,C04,C02
+//@   tags C03,C05,C04,C02,C01
 //@   requires s != nil && s.Handler != nil && wfCtx(ctx) && handlerInv(s.Handler, ctx)
 //@   modifies ctx.State, fopen, fpos, limbase, iofaults, wn[ctx.rd.Reader], wdata[ctx.rd.Reader]
 //@   let c = ctx.rd.Reader
@@ -283,7 +283,7 @@ package server
 //@   ensures[C03,C17] wn[c] <= old(wn[c]) + 2048 * gbe32(ctx.rd.cmd.Data, 6) && (err == nil ==> wn[c] == old(wn[c]) + 2048 * gbe32(ctx.rd.cmd.Data, 6)) @count-sectors-or-disconnect
 
 //@ func Server.handleCreateFile results(err)
-//@   tags C03,C05,C04
+//@   tags C03,C05,C04,C01
 //@   requires s != nil && s.Handler != nil && wfCtx(ctx) && handlerInv(s.Handler, ctx)
 //@   modifies ctx.State, fopen, fpos, limbase, iofaults, fsw, wn[ctx.rd.Reader], wdata[ctx.rd.Reader]
 //@   let c = ctx.rd.Reader
@@ -296,7 +296,7 @@ package server
 //@   ensures[C03] fpos[c] >= old(fpos[c]) && fpos[c] <= old(fpos[c]) + L && wn[c] <= old(wn[c]) + 4 @no-stray-bytes
 
 //@ func Server.handleDeleteFile results(err)
-//@   tags C03,C05,C04
+//@   tags C03,C05,C04,C01
 //@   requires s != nil && s.Handler != nil && wfCtx(ctx) && handlerInv(s.Handler, ctx)
 //@   modifies ctx.State, fopen, fpos, limbase, iofaults, fsw, wn[ctx.rd.Reader], wdata[ctx.rd.Reader]
 //@   let c = ctx.rd.Reader
@@ -309,7 +309,7 @@ package server
 //@   ensures[C03] fpos[c] >= old(fpos[c]) && fpos[c] <= old(fpos[c]) + L && wn[c] <= old(wn[c]) + 4 @no-stray-bytes
 
 //@ func Server.handleMkdir results(err)
-//@   tags C03,C05,C04
+//@   tags C03,C05,C04,C01
 //@   requires s != nil && s.Handler != nil && wfCtx(ctx) && handlerInv(s.Handler, ctx)
 //@   modifies ctx.State, fopen, fpos, limbase, iofaults, fsw, wn[ctx.rd.Reader], wdata[ctx.rd.Reader]
 //@   let c = ctx.rd.Reader
@@ -322,7 +322,7 @@ package server
 //@   ensures[C03] fpos[c] >= old(fpos[c]) && fpos[c] <= old(fpos[c]) + L && wn[c] <= old(wn[c]) + 4 @no-stray-bytes
 
 //@ func Server.handleRmdir results(err)
-//@   tags C03,C05,C04
+//@   tags C03,C05,C04,C01
 //@   requires s != nil && s.Handler != nil && wfCtx(ctx) && handlerInv(s.Handler, ctx)
 //@   modifies ctx.State, fopen, fpos, limbase, iofaults, fsw, wn[ctx.rd.Reader], wdata[ctx.rd.Reader]
 //@   let c = ctx.rd.Reader
@@ -335,7 +335,7 @@ package server
 //@   ensures[C03] fpos[c] >= old(fpos[c]) && fpos[c] <= old(fpos[c]) + L && wn[c] <= old(wn[c]) + 4 @no-stray-bytes
 
 //@ func Server.handleGetDirSize results(err)
-//@   tags C03,C05,C04
+//@   tags C03,C05,C04,C01
 //@   requires s != nil && s.Handler != nil && wfCtx(ctx) && handlerInv(s.Handler, ctx)
 //@   modifies ctx.State, fopen, fpos, limbase, iofaults, walkroot, wn[ctx.rd.Reader], wdata[ctx.rd.Reader]
 //@   let c = ctx.rd.Reader
